@@ -546,17 +546,20 @@ func (c *Client) doRountrip(ctx context.Context, msg *kmip.RequestMessage) (*kmi
 //   - *kmip.ResponseMessage - The KMIP response message received.
 //   - error - Any error encountered during processing or sending the request.
 func (c *Client) Roundtrip(ctx context.Context, msg *kmip.RequestMessage) (*kmip.ResponseMessage, error) {
-	i := 0
-	var next func(ctx context.Context, req *kmip.RequestMessage) (*kmip.ResponseMessage, error)
-	next = func(ctx context.Context, req *kmip.RequestMessage) (*kmip.ResponseMessage, error) {
-		if i < len(c.middlewares) {
-			mdl := c.middlewares[i]
-			i++
-			return mdl(next, ctx, req)
+	// chain(i) is the continuation handed to the middleware at position i-1: it runs the middlewares
+	// from position i onward, then sends the request. The position is bound to each continuation
+	// (not shared between them), so a middleware may invoke its continuation several times (retry)
+	// and each invocation runs all the inner middlewares again.
+	var chain func(i int) Next
+	chain = func(i int) Next {
+		return func(ctx context.Context, req *kmip.RequestMessage) (*kmip.ResponseMessage, error) {
+			if i < len(c.middlewares) {
+				return c.middlewares[i](chain(i+1), ctx, req)
+			}
+			return c.doRountrip(ctx, req)
 		}
-		return c.doRountrip(ctx, req)
 	}
-	return next(ctx, msg)
+	return chain(0)(ctx, msg)
 }
 
 // negotiateVersion negotiates the KMIP protocol version to be used by the client.
